@@ -79,6 +79,17 @@ LEAVES = [
      [], "bool", {}),
     ("Register", "register_encodes_before_registry", "_core.py", "Zeroconf.async_register_service", ("call_before", "generate_service_broadcast", "self.registry.async_add"),
      [], "bool", {}),
+    # ---- the public wrappers pass their arguments on in order (shape pins on the positional arguments 2..4 of the inner call) and the
+    # context managers close through the public close calls; async_unregister_service defaults a missing `server` like register / update
+    ("Register", "src_sync_register_arg2", "_core.py", "Zeroconf.register_service", ("arg", "self.async_register_service", 2, 0), [], "src", {}),
+    ("Register", "src_sync_register_arg3", "_core.py", "Zeroconf.register_service", ("arg", "self.async_register_service", 3, 0), [], "src", {}),
+    ("Register", "src_sync_register_arg4", "_core.py", "Zeroconf.register_service", ("arg", "self.async_register_service", 4, 0), [], "src", {}),
+    ("Register", "src_aio_register_arg2", "asyncio.py", "AsyncZeroconf.async_register_service", ("arg", "self.zeroconf.async_register_service", 2, 0), [], "src", {}),
+    ("Register", "src_aio_register_arg3", "asyncio.py", "AsyncZeroconf.async_register_service", ("arg", "self.zeroconf.async_register_service", 3, 0), [], "src", {}),
+    ("Register", "src_aio_register_arg4", "asyncio.py", "AsyncZeroconf.async_register_service", ("arg", "self.zeroconf.async_register_service", 4, 0), [], "src", {}),
+    ("Register", "aexit_calls_async_close", "asyncio.py", "AsyncZeroconf.__aexit__", ("has_call", "self.async_close"), [], "bool", {}),
+    ("Register", "exit_calls_close", "_core.py", "Zeroconf.__exit__", ("has_call", "self.close"), [], "bool", {}),
+    ("Register", "unregister_sets_server", "_core.py", "Zeroconf.async_unregister_service", ("has_call", "info.set_server_if_missing"), [], "bool", {}),
     # the registry is keyed by name: removal is by key, never by object identity (an equal-but-distinct ServiceInfo, or the
     # handle from before update_service, withdraws the service)
     ("Register", "registry_remove_by_identity", "_services/registry.py", "ServiceRegistry.async_remove", ("has_identity_test",),
